@@ -18,9 +18,9 @@ NOT_DECIDED = "strict monotonicity across refills and over thousands of occurren
 TRUSTED = ["clang 14 parser/CFG builder", "echse-facts extractor", "python rule engines in /verif/sa"]
 LEVEL_TEXT = ("Static verdict on necessary structural clauses of C16 for all rules at once: sort after every reordering transformation, UNTIL "
               "and DTSTART guards dominate every commit (after SHIFT), COUNT clamps the capacity in every filler and is decremented per refill, "
-              "cache writes are bounded by that capacity. It decides those clauses, not strict monotonicity of the values.")
+              "cache writes are bounded by that capacity. It decides those clauses, not strict monotonicity of the values. Also: the fillers and their helpers carry no state from one rule to the next.")
 LEVEL_NOTE = "Trusted: clang 14 front end/CFG, extractor, rule engines."
-TECHNIQUE = "static analysis: forward must-facts (guard dominance), backward must-pass-through, sibling agreement of the seven fillers"
+TECHNIQUE = "static analysis: forward must-facts (guard dominance), backward must-pass-through, sibling agreement of the seven fillers; carried-state / memo-key analysis"
 
 
 def r16_1(prog, rep):
